@@ -50,14 +50,15 @@ def list_task(args):
     modname, tier, prop = args
     try:
         L = _load(modname, tier)
-        return modname, [(o["name"], o["props"], o["kind"]) for o in L.obligations() if prop in o["props"]], None
+        return modname, [(o["name"], o["props"], o["kind"], int(o["opts"].get("shards", 1) or 1)) for o in L.obligations() if prop in o["props"]], None
     except Exception as e:  # noqa
         import traceback
         return modname, [], f"{type(e).__name__}: {e}\n{traceback.format_exc(limit=6)}"
 
 
 def run_task(args):
-    modname, name, tier, ov_key, ov = args
+    modname, name, tier, ov_key, ov = args[:5]
+    shard = args[5] if len(args) > 5 else None
     from . import contracts
     try:
         L = _load(modname, tier, ov_key, ov)
@@ -65,7 +66,7 @@ def run_task(args):
             if o["name"] == name and o["opts"].get("native_only"):
                 return native_only_result(modname, o)
             if o["name"] == name:
-                r = contracts.run_harness(L, o, _cfg(tier))
+                r = contracts.run_harness(L, o, _cfg(tier), shard=shard)
                 r["module"] = modname
                 r["hashes"] = contracts.func_hashes(L.interp, r["inlined"])
                 return r
@@ -143,17 +144,57 @@ def run_check(prop, tier, seed, jobs=None, overrides=None, quiet=False, repo=REP
         for modname, obs, err in pool.map(list_task, [(m, tier, prop) for m in mods]):
             if err:
                 listing_errors.append((modname, err))
-            for name, props, kind in obs:
+            for name, props, kind, shards in obs:
                 if only and only not in name:
                     continue
-                tasks.append((modname, name, tier, ov_key, overrides))
+                if shards > 1:
+                    for k in range(shards):
+                        tasks.append((modname, name, tier, ov_key, overrides, (k, shards)))
+                else:
+                    tasks.append((modname, name, tier, ov_key, overrides))
     results = []
     if tasks:
         with ctx.Pool(min(jobs, len(tasks))) as pool:
             for r in pool.imap_unordered(run_task, tasks, chunksize=1):
                 results.append(r)
+    results = merge_shards(results)
     results.sort(key=lambda r: (r["module"], r["name"]))
     return finish(prop, tier, seed, results, listing_errors, t0, quiet, repo)
+
+
+def merge_shards(results):
+    """results of the shards of one harness -> one result"""
+    by = {}
+    out = []
+    for r in results:
+        key = (r.get("module"), r["name"])
+        if key not in by:
+            by[key] = r
+            out.append(r)
+            continue
+        m = by[key]
+        for f in ("paths", "paths_ok", "n_problems", "solver_secs", "solver_calls", "own_paths"):
+            m[f] = (m.get(f) or 0) + (r.get(f) or 0)
+        m["wall_s"] = max(m.get("wall_s") or 0, r.get("wall_s") or 0)
+        m["problems"] = (m.get("problems") or []) + (r.get("problems") or [])
+        for f in ("trusted", "covers", "notes", "summaries_used", "inlined"):
+            m[f] = sorted(set(m.get(f) or []) | set(r.get(f) or []))
+        m.setdefault("hashes", {}).update(r.get("hashes") or {})
+        cl = {c["label"]: c for c in m.get("clauses", [])}
+        for c in r.get("clauses", []):
+            if c["label"] not in cl:
+                m.setdefault("clauses", []).append(c)
+                cl[c["label"]] = c
+                continue
+            t = cl[c["label"]]
+            t["paths"] += c["paths"]
+            t["discharged"] += c["discharged"]
+            t["secs"] += c["secs"]
+            t["failed"] = (t["failed"] + c["failed"])[:3]
+            t["unknown"] = t["unknown"] + c["unknown"]
+            for b, n in c["backends"].items():
+                t["backends"][b] = t["backends"].get(b, 0) + n
+    return out
 
 
 def finish(prop, tier, seed, results, listing_errors, t0, quiet, repo):
